@@ -12,12 +12,12 @@
 package klock
 
 import (
-	"strings"
 	"fmt"
 	"io"
 	"log/slog"
 	"os"
 	"sort"
+	"strings"
 	"sync"
 	"time"
 
